@@ -323,7 +323,54 @@ def eval_shared(ctx, case):
     return Verdict.held({"exit": r.exit, "written": [wa, wb]}, tags=tags)
 
 
+def gen_require_case(rng, i):
+    return {"kind": "require", "i": i, "tkind": rng.choice(["file-rel", "http", "file-abs"]), "seed": rng.randrange(1 << 30),
+            "b_conforms": rng.random() < 0.5, "schema_present": rng.random() < 0.7, "nfiles": rng.randint(2, 5)}
+
+
+def eval_require(ctx, case):
+    """several output files share one custom template and one template-schema but differ in require-template-schema-exists:
+    the files that do not require the schema carry violating data (no validation => written), the one that requires it decides the run"""
+    server = ctx.server
+    n = case["nfiles"]
+    src = "package pa\n\n" + "".join("type R%d interface{ M%d() }\n\n" % (k, k) for k in range(n))
+    root = core.scratch_module(ctx, {"pa/a.go": src})
+    tref, tdir = template_ref(case, server, root, "probe.templ")
+    os.makedirs(tdir, exist_ok=True)
+    open(os.path.join(tdir, "probe.templ"), "w").write(probe.probe_template("A"))
+    if case["schema_present"]:
+        open(os.path.join(tdir, "probe.templ.schema.json"), "w").write(json.dumps({"type": "object", "properties": {"other": {"type": "string"}}}))   # (file-level data is empty and passes)
+    strict = case["seed"] % n
+    ifs = {}
+    for k in range(n):
+        if k == strict:
+            ifs["R%d" % k] = {"config": {"require-template-schema-exists": True, "template-data": {"other": "text"} if case["b_conforms"] else {"other": 1}}}
+        else:
+            ifs["R%d" % k] = {"config": {"require-template-schema-exists": False, "template-data": {"other": k}}}
+    cfg = {"formatter": "noop", "dir": "out", "filename": "m_{{.InterfaceName}}.go", "pkgname": "mocks", "template": tref,
+           "packages": {MOD + "/pa": {"interfaces": ifs}}}
+    open(os.path.join(root, ".mockery.yml"), "w").write(json.dumps(cfg))
+    r = core.run_mockery(ctx, root, [], timeout=300)
+    if r.timed_out:
+        return Verdict.inconclusive("watchdog")
+    accept = case["schema_present"] and case["b_conforms"]
+    written = sorted(os.listdir(os.path.join(root, "out"))) if os.path.isdir(os.path.join(root, "out")) else []
+    tags = ["shared-template-different-require", "template=" + case["tkind"], "model=" + ("accept" if accept else "reject")]
+    obs = {"exit": r.exit, "written": written, "strict_file": "m_R%d.go" % strict, "config": cfg}
+    if r.panicked:
+        return Verdict.violated("mockery crashed", dict(obs, **r.brief()), tags)
+    if accept and (r.exit != 0 or len(written) != n):
+        return Verdict.violated("files that do not require the schema carry unvalidated data and the one that requires it conforms, yet exit %s, written %s" % (r.exit, written),
+                                dict(obs, **r.brief()), tags)
+    if not accept and (r.exit == 0 or ("m_R%d.go" % strict) in written):
+        return Verdict.violated("the file that requires the schema (%s) must be rejected (%s) but exit %s, written %s" % (
+            "m_R%d.go" % strict, "schema missing" if not case["schema_present"] else "data violates it", r.exit, written), dict(obs, **r.brief()), tags)
+    return Verdict.held({"exit": r.exit, "written": written}, tags=tags)
+
+
 def eval_case(ctx, case):
+    if case["kind"] == "require":
+        return eval_require(ctx, case)
     return eval_shared(ctx, case) if case["kind"] == "shared" else eval_single(ctx, case)
 
 
@@ -343,6 +390,7 @@ def body(ctx, replay=None):
         else:
             n, m = (90, 16) if ctx.tier == "quick" else (900, 120)
             cases = [gen_case(ctx.rng, i) for i in range(n)] + [gen_shared_case(ctx.rng, 10000 + i) for i in range(m)]
+            cases += [gen_require_case(ctx.rng, 20000 + i) for i in range(2 * m)]
         ctx.run_cases(cases, eval_case)
     finally:
         ctx.server.close()
